@@ -21,7 +21,8 @@ class RandomTap:
        otherwise     : pass-through to a private seeded generator.
     """
 
-    def __init__(self, seed=0, script=None, preset=None, strict=False, keep_log=True):
+    def __init__(self, seed=0, script=None, preset=None, strict=False, keep_log=True, on_event=None):
+        self.on_event = on_event
         self.rng = _random.Random(seed)
         self.script = {k: list(v) for k, v in (script or {}).items()}
         self.pos = Counter()
@@ -49,6 +50,8 @@ class RandomTap:
 
     def _ev(self, kind, summary, result):
         self.counts[kind] += 1
+        if self.on_event is not None:
+            self.on_event(self, kind)
         if self.keep_log:
             self.log.append((kind, summary, result))
 
